@@ -128,8 +128,22 @@ def draw_convex(rng, family=None, n=None, constrained=True, bounds=True, sense=N
                 else:
                     active = rng.random() < 0.5 and n_active < N - 1
                     slack = 0.0 if active else 0.5 + abs(q(rng, 0, 2))
-                    if rng.random() < 0.5:
-                        rel = ["rel", "<=", lin, ["raw", at + slack, "float"], rng.choice(["direct", "direct", "reflected"]) if False else "direct"]
+                    # vector-node spelling of the same affine function when it only involves the vector
+                    lin_w = lin
+                    if vnames and all(nm in vnames for nm in coef) and rng.random() < 0.6:
+                        cs = [coef.get(nm, 0.0) for nm in vnames]
+                        lin_w = ["matmul", ["arr", cs], x] if rng.random() < 0.7 or len(set(cs)) > 1 else ["bin", "*", ["raw", cs[0], "float"], ["sum", x]]
+                    r = rng.random()
+                    if r < 0.35:
+                        rel = ["rel", "<=", lin_w, ["raw", at + slack, "float"], "direct"]
+                        g = ["bin", "-", lin, ["raw", at + slack, "float"]]
+                    elif r < 0.55:
+                        # constant - f(x) >= 0
+                        rel = ["rel", ">=", ["bin", "-", ["const", at + slack, "float"], lin_w], ["raw", 0.0, "float"], "direct"]
+                        g = ["bin", "-", lin, ["raw", at + slack, "float"]]
+                    elif r < 0.7:
+                        # 0 <= constant - f(x), reflected spelling
+                        rel = ["rel", ">=", ["bin", "-", ["raw", at + slack, "float"], lin_w], ["raw", 0.0, "float"], "reflected"]
                         g = ["bin", "-", lin, ["raw", at + slack, "float"]]
                     else:
                         # written as  -lin >= -(at+slack)
@@ -149,7 +163,15 @@ def draw_convex(rng, family=None, n=None, constrained=True, bounds=True, sense=N
                     continue
                 active = rng.random() < 0.5 and n_active < N - 1
                 slack = 0.0 if active else 0.5 + abs(q(rng, 0, 2))
-                cons.append({"rel": ["rel", "<=", sq, ["raw", r2 + slack, "float"], "direct"], "g": ["bin", "-", sq, ["raw", r2 + slack, "float"]],
+                sq_w = sq
+                if vnames and len(vnames) == N and rng.random() < 0.6:
+                    dlt = ["vbin", "-", x, ["arr", [cvec[nm] for nm in vnames]]]
+                    sq_w = ["dot", dlt, dlt]
+                if rng.random() < 0.4:
+                    relq = ["rel", ">=", ["bin", "-", ["const", r2 + slack, "float"], sq_w], ["raw", 0.0, "float"], "direct"]
+                else:
+                    relq = ["rel", "<=", sq_w, ["raw", r2 + slack, "float"], "direct"]
+                cons.append({"rel": relq, "g": ["bin", "-", sq, ["raw", r2 + slack, "float"]],
                              "type": "ineq", "active": active, "lam": (0.25 + abs(q(rng, 0, 1))) if active else 0.0})
                 n_active += int(active)
 
